@@ -26,7 +26,7 @@ ASSUMPTIONS = [
     "write side: no finite sample prints as a token numerically equal to NULL",
 ]
 REQUIRED = ["read_cases", "cells_compared", "null_equal_cells_in_index", "near_null_cells", "null_equal_cells_other_spelling",
-            "policy_none_cases", "text_column_cases", "write_nan_tokens_checked", "roundtrip_masks_compared", "wrapped_cases"]
+            "policy_none_cases", "text_column_cases", "write_nan_tokens_checked", "roundtrip_masks_compared", "wrapped_cases", "read_cases_with_surplus_columns"]
 SOFT_DEADLINE = {"quick": 90, "thorough": 1200}
 LEVEL_TEXT = "Exploration with a cell-level 'if and only if' model of the NaN mask on both directions (read, write->read)."
 LEVEL_NOTE = "Trusts Python float() as the numeric-equality reference for spellings; NULL texts outside the listed set are not covered."
@@ -126,7 +126,14 @@ def run_read(case, ctx):
             rows[i][textcol] = rng.choice(["abc", "N/A-1", "lith_A", repr(nv) if nv != int(nv) else "abc"])
             cls[i][textcol] = "text"
         rows[0][textcol] = "abc"      # the first row decides the column type
+    declared = c
+    if not case["wrap"] and case["seed"] % 4 == 3 and c >= 2:
+        declared = max(1, c - 1 - case["seed"] % 2)          # surplus columns become unnamed curves: NULL applies to them as well
+        ctx.count("read_cases_with_surplus_columns")
     secs = lastext.std_header(c, null=nt, wrap="YES" if case["wrap"] else "NO")
+    for sct in secs:
+        if sct["kind"] == "C":
+            sct["items"] = sct["items"][:declared]
     if not case["has_null_item"]:
         for s in secs:
             if s["kind"] == "W":
